@@ -8,7 +8,7 @@
 //!     //@AT <anchor>            following lines (until the next //@ directive) are spliced at the anchor
 //!     //@LOOP <k>               following lines are the loop annotations (invariant/decreases) of loop k
 //!     //@END                    end of the function block
-//! Anchors: entry | exit | before:[<match arm pattern>]<call>#<k> (ordinal counted inside that arm only) | before:<call>#<k> | after:<call>#<k> | ret#<k> | loophead:<k> | loopend:<k>
+//! Anchors: entry | exit | preloop:<k> (before the header of loop k) | before:[<match arm pattern>]<call>#<k> (ordinal counted inside that arm only) | before:<call>#<k> | after:<call>#<k> | ret#<k> | loophead:<k> | loopend:<k>
 //!   <call> is the name of a translated call (h.set_left -> set_left, rotate_left, ...), <k> its ordinal in
 //!   source order within the function.  An anchor that no longer exists is a lost anchor (never an alarm).
 //!
@@ -363,6 +363,7 @@ impl<'a> Tx<'a> {
                 self.err(&format!("struct literal {}", n), e.span());
                 String::new()
             }
+            syn::Expr::Cast(c) if self.ops && toks(&*c.ty).replace(' ', "").starts_with('*') => self.expr(&c.expr), // R48: a raw-pointer cast of a reference keeps the arena pointer
             syn::Expr::Cast(c) => format!("({} as {})", self.expr(&c.expr), toks(&*c.ty)),
             syn::Expr::Let(l) if self.ops => format!("let {} = {}", toks(&*l.pat), self.expr(&l.expr)),
             syn::Expr::Tuple(t) if self.ops => {
@@ -644,6 +645,16 @@ impl<'a> Tx<'a> {
             }
             "unwrap" | "expect" if self.ops && toks(&*m.receiver).replace(' ', "").starts_with("self.") => format!("{}.unwrap()", self.expr(&m.receiver)),
             "next_table" if self.ops => format!("h.next_table({})", self.expr(&m.receiver)),
+            "find" if self.ops => {
+                // R49: Table::find as a method: table_find(h, <table>, args..)
+                let recv = self.expr(&m.receiver);
+                let mut all = vec!["h".to_string(), recv];
+                for a in m.args.iter().filter(|a| !is_drop_arg(a)) {
+                    let v = self.expr(a);
+                    all.push(self.hoist(v));
+                }
+                format!("table_find({})", all.join(", "))
+            }
             "iter" if self.ops && toks(&*m.receiver) == "self" => "iter_new(h, this)".to_string(),
             "next_internal" if self.ops => format!("iter_next(h, &mut {})", self.expr(&m.receiver)),
             "before" | "after" if self.ops => format!("{}.{}()", self.expr(&m.receiver), name),
@@ -855,6 +866,17 @@ impl<'a> Tx<'a> {
         match s {
             syn::Stmt::Local(l) if self.verbatim => {
                 self.push(ind, toks(l), ln, true);
+            }
+            syn::Stmt::Local(l) if self.ops && matches!(&l.pat, syn::Pat::TupleStruct(_)) && l.init.as_ref().map(|i| i.diverge.is_some() && toks(&*i.expr).replace(' ', "").starts_with("**")).unwrap_or(false) => {
+                // R47: let BinEntry::K(ref x) = **p else { unreachable!() }  ->  the kind of p is checked (proof obligation), x is p
+                if let (syn::Pat::TupleStruct(ts), Some(init)) = (&l.pat, &l.init) {
+                    let kind = ts.path.segments.last().map(|s| s.ident.to_string()).unwrap_or_default();
+                    let var = ts.elems.first().map(|e| toks(e).replace("ref ", "").replace("mut ", "")).unwrap_or_default();
+                    let k = match kind.as_str() { "Tree" => "TreeBin", "TreeNode" => "TreeNode", "Node" => "Node", "Moved" => "Moved", _ => "Unknown" };
+                    let p = toks(&*init.expr).replace(' ', "").trim_start_matches('*').to_string();
+                    self.push(ind, format!("match h.kind({}) {{ Kind::{} => {{}} _ => {{ assert(false); loop invariant false decreases 0int {{ }} }} }}", p, k), ln, true);
+                    self.push(ind, format!("let {}: Ptr = {};", var, p), ln, true);
+                }
             }
             syn::Stmt::Local(l) if self.self_ptr && matches!(&l.pat, syn::Pat::TupleStruct(_)) => {
                 // R17: let BinEntry::K(x) = <box>.value else { unreachable!() }   ->   let x: Ptr = h.as_K(<ptr>)
@@ -1092,6 +1114,16 @@ impl<'a> Tx<'a> {
                 }
                 self.push(ind, "}".into(), 0, false);
             }
+            syn::Expr::Loop(l) if self.ops && !semi && toks(&l.body).contains("break ") && !toks(&l.body).replace("break ;", "").replace("break }", "").contains("break ") == false => {
+                // R50: a loop in tail position whose value is given by `break V`: the value goes through a fresh variable (R27)
+                let name = format!("loop_val{}", self.loop_count);
+                self.push(ind, format!("let mut {};", name), ln, true);
+                self.push(ind, "loop".into(), ln, false);
+                self.break_targets.push(Some(name.clone()));
+                self.loop_body(&l.body, ind, ln);
+                self.break_targets.pop();
+                self.push(ind, name, ln, false);
+            }
             syn::Expr::Loop(l) => {
                 self.push(ind, "loop".into(), ln, false);
                 self.break_targets.push(None);
@@ -1235,8 +1267,11 @@ impl<'a> Tx<'a> {
                                 bound = Some(pi.ident.to_string());
                             }
                         }
-                        let head = pat.split('(').next().unwrap_or("").trim().to_string();
-                        pat = head.replace("BinEntry::", "Kind::").replace("Kind::TreeNode", "Kind::@TN").replace("Kind::Tree", "Kind::TreeBin").replace("Kind::@TN", "Kind::TreeNode");
+                        let alts: Vec<String> = pat.split('|').map(|alt| {
+                            let head = alt.split('(').next().unwrap_or("").trim().to_string();
+                            head.replace("BinEntry::", "Kind::").replace("Kind::TreeNode", "Kind::@TN").replace("Kind::Tree", "Kind::TreeBin").replace("Kind::@TN", "Kind::TreeNode")
+                        }).collect();
+                        pat = alts.join(" | ");
                     }
                     let guard = match &a.guard { Some((_, g)) if self.ops => format!(" if {}", self.expr(g)), _ => String::new() };
                     self.push(ind + 1, format!("{}{} => {{", pat, guard), a.span().start().line, false);
@@ -1641,6 +1676,18 @@ pub fn generate(idx: &SrcIndex, template: &str) -> ArenaOut {
                                 } else {
                                     errors.push(format!("lost anchor: {} in {} is not on a simple statement", ak, key));
                                 }
+                            }
+                        }
+                    }
+                    // preloop:<k>: before the header line of loop k (ghost declarations the invariants mention)
+                    for (li, l) in tx.lines.iter().enumerate() {
+                        if let Some(k) = l.marker.as_ref().and_then(|m| m.strip_prefix("loop:")) {
+                            let pk = format!("preloop:{}", k);
+                            if let Some(v) = at.get(&pk) {
+                                let mut hi = li;
+                                while hi > 0 && (tx.lines[hi].marker.is_some() || !(tx.lines[hi].text.starts_with("loop") || tx.lines[hi].text.starts_with("while"))) { hi -= 1; }
+                                before.entry(hi).or_default().extend(v.iter().cloned());
+                                used.push(pk);
                             }
                         }
                     }
